@@ -43,6 +43,7 @@ type kase struct {
 	XFF       string `json:"xff"`
 	XRI       string `json:"xri"`
 	Family    string `json:"family"`
+	Rev       bool   `json:"rev"`
 	Token     bool   `json:"token"`
 	Authz     string `json:"authz"`
 	Endpoint  string `json:"endpoint"`
@@ -148,6 +149,15 @@ func main() {
 			listFam = "v4"
 		}
 		cfg.AdminAPI = config.AdminAPIConfig{Enabled: true, Port: 9091}
+		if k.Rev {
+			// the same lists configured in the opposite order
+			for i, j := 0, len(k.Allow)-1; i < j; i, j = i+1, j-1 {
+				k.Allow[i], k.Allow[j] = k.Allow[j], k.Allow[i]
+			}
+			for i, j := 0, len(k.Deny)-1; i < j; i, j = i+1, j-1 {
+				k.Deny[i], k.Deny[j] = k.Deny[j], k.Deny[i]
+			}
+		}
 		for _, a := range k.Allow {
 			cfg.AdminAPI.IPAllowList = append(cfg.AdminAPI.IPAllowList, network(listFam, a))
 		}
